@@ -35,41 +35,62 @@ func (c *Ctx) recoverFn(name string, rep *FuncReport) {
 }
 
 // registerInputs records scalar entry values for counterexample extraction.
-func (c *Ctx) registerInputs(name string, v *Val, st *State) {
+func (c *Ctx) registerInputs(name string, v *Val, st *State) { c.registerInputsD(name, v, st, 0) }
+
+func (c *Ctx) registerInputsD(name string, v *Val, st *State, depth int) {
+	if len(c.Inputs) > 3000 {
+		return
+	}
 	switch v.K {
 	case KInt, KBool, KMath:
 		c.Inputs[name] = v.X
+	case KArr:
+		if a, ok := under(v.T).(*types.Array); ok && a.Len() <= 32 && kindOf(a.Elem()) == KInt {
+			for i := int64(0); i < a.Len(); i++ {
+				c.Inputs[fmt.Sprintf("%s[%d]", name, i)] = Select(v.X, Num(i))
+			}
+		}
 	case KPtr:
 		c.Inputs[name] = v.X
 		if isBigIntPtr(v.T) {
 			c.Inputs[name+".val"] = bigval(st, v.X)
+			return
+		}
+		if depth >= 2 || v.Cell != nil {
+			return
 		}
 		if pt, ok := under(v.T).(*types.Pointer); ok {
-			if stt, ok := under(pt.Elem()).(*types.Struct); ok && len(name) < 40 {
+			if stt, ok := under(pt.Elem()).(*types.Struct); ok {
 				for i := 0; i < stt.NumFields(); i++ {
 					ft := stt.Field(i).Type()
 					switch kindOf(ft) {
-					case KInt, KBool:
-						fv := st.loadAt(v.Root, v.Path+"."+stt.Field(i).Name(), v.X, nil, ft)
-						c.Inputs[name+"."+stt.Field(i).Name()] = fv.X
-					case KPtr:
-						if isBigIntPtr(ft) {
-							fv := st.loadAt(v.Root, v.Path+"."+stt.Field(i).Name(), v.X, nil, ft)
-							c.Inputs[name+"."+stt.Field(i).Name()] = fv.X
-							c.Inputs[name+"."+stt.Field(i).Name()+".val"] = bigval(st, fv.X)
+					case KInt, KBool, KPtr, KArr, KStruct:
+						if n, isN := ft.(*types.Named); isN && n.Obj().Pkg() != nil && !inModule(n.Obj().Pkg().Path()) && !isBigIntPtr(ft) {
+							continue
 						}
+						fv := st.loadAt(v.Root, v.Path+"."+stt.Field(i).Name(), v.X, nil, ft)
+						c.registerInputsD(name+"."+stt.Field(i).Name(), fv, st, depth+1)
+					case KSlice:
+						fv := st.loadAt(v.Root, v.Path+"."+stt.Field(i).Name(), v.X, nil, ft)
+						c.Inputs[name+"."+stt.Field(i).Name()+".len"] = fv.Len
 					}
 				}
 			}
 		}
 	case KSlice:
 		c.Inputs[name+".len"] = v.Len
+		if et := under(v.T).(*types.Slice).Elem(); kindOf(et) == KInt {
+			arr := st.heapGet("S:"+tstr(et), SArr(SInt, SArr(SInt, SInt)))
+			for i := int64(0); i < 16; i++ {
+				c.Inputs[fmt.Sprintf("%s[%d]", name, i)] = Select(Select(arr, v.X), Add(v.Off, Num(i)))
+			}
+		}
 	case KIface, KMap:
 		c.Inputs[name] = v.X
 	case KStruct:
 		stt := under(v.T).(*types.Struct)
 		for i, f := range v.Fs {
-			c.registerInputs(name+"."+stt.Field(i).Name(), f, st)
+			c.registerInputsD(name+"."+stt.Field(i).Name(), f, st, depth)
 		}
 	}
 }
@@ -106,6 +127,7 @@ func (c *Ctx) VerifyFunc(pkgPath, key string) (rep *FuncReport) {
 	resetHeapModel()
 	resetGlobals()
 	c.curFunc = name
+	c.curTop = fn
 	c.Inputs = map[string]*Term{}
 	nobs := len(c.Obs)
 	fr := c.newFrame(fn, 0)
@@ -300,6 +322,7 @@ func (c *Ctx) VerifyLemma(name string) (rep *FuncReport) {
 	resetHeapModel()
 	resetGlobals()
 	c.curFunc = "lemma." + name
+	c.curTop = nil
 	c.Inputs = map[string]*Term{}
 	nobs := len(c.Obs)
 	var pkg *types.Package
